@@ -70,7 +70,8 @@ def main(argv=None):
     classes = {}
     for v in rep.violations:
         classes.setdefault(v["cls"], []).append(v)
-    rdir = os.path.join(common.VERIF, "replays", pid)
+    base = common.VERIF if common.REPO == "/repo" else os.path.join(common.VERIF, "scratch")
+    rdir = os.path.join(base, "replays", pid)
     os.makedirs(rdir, exist_ok=True)
     for f in os.listdir(rdir):
         if f.startswith("v") and f.endswith(".json"):
@@ -117,7 +118,7 @@ def main(argv=None):
           "wall_s": round(wall, 2), "violations": n_new,
           "known_findings_hit": [{"match": k, "count": c} for k, (e, c) in known_hit.items()],
           "repo": common.REPO}
-    epath = os.path.join(common.VERIF, "evidence", f"{pid}.json")
+    epath = os.path.join(base, "evidence", f"{pid}.json")
     os.makedirs(os.path.dirname(epath), exist_ok=True)
     with open(epath, "w") as fh:
         json.dump(ev, fh, indent=1)
